@@ -46,15 +46,15 @@ deriving DecidableEq, Repr, Inhabited
 
 /-! ## sync.Map as an association list -/
 
-def aload {β : Type} (k : Nat) : List (Nat × β) → Option β
+def aload {κ β : Type} [DecidableEq κ] (k : κ) : List (κ × β) → Option β
   | [] => none
   | (k', v) :: t => if k' = k then some v else aload k t
 
-def astore {β : Type} (k : Nat) (v : β) : List (Nat × β) → List (Nat × β)
+def astore {κ β : Type} [DecidableEq κ] (k : κ) (v : β) : List (κ × β) → List (κ × β)
   | [] => [(k, v)]
   | (k', v') :: t => if k' = k then (k, v) :: t else (k', v') :: astore k v t
 
-def adelete {β : Type} (k : Nat) (l : List (Nat × β)) : List (Nat × β) :=
+def adelete {κ β : Type} [DecidableEq κ] (k : κ) (l : List (κ × β)) : List (κ × β) :=
   l.filter (fun e => e.1 ≠ k)
 
 /-- Parameters that select the code variant / resolve its nondeterminism.
@@ -235,7 +235,7 @@ def Mux.registered (m : Mux) : List (Rcpt × List Eid) :=
   m.children.flatMap (fun c => c.2.registered c.1)
 
 /-- Well-formed registry: identifiers are names (no name twice). Preserved by every operation. -/
-def keysNodup {β : Type} (l : List (Nat × β)) : Prop := (l.map (·.1)).Nodup
+def keysNodup {κ β : Type} (l : List (κ × β)) : Prop := (l.map (·.1)).Nodup
 
 def Agent.WF : Agent → Prop
   | .rest ra => keysNodup ra.clients ∧ keysNodup ra.mailbox
@@ -301,11 +301,7 @@ def Rcpt.agent : Rcpt → Nat
 
 def Reg.kindOf (r : Reg) (a : Nat) : Option Kind := aload a r.kinds
 
-def Reg.box (r : Reg) (x : Rcpt) : List Bundle :=
-  ((r.boxes.find? (fun e => e.1 = x)).map (·.2)).getD []
-
-def Reg.setBox (r : Reg) (x : Rcpt) (l : List Bundle) : Reg :=
-  { r with boxes := (r.boxes.filter (fun e => e.1 ≠ x)) ++ (if l.isEmpty then [] else [(x, l)]) }
+def Reg.box (r : Reg) (x : Rcpt) : List Bundle := (aload x r.boxes).getD []
 
 def Reg.addAgent (r : Reg) (a : Nat) (k : Kind) (entries : Regs) : Reg :=
   if (r.kindOf a).isSome then r else { r with kinds := r.kinds ++ [(a, k)], regs := r.regs ++ entries }
@@ -313,6 +309,10 @@ def Reg.addAgent (r : Reg) (a : Nat) (k : Kind) (entries : Regs) : Reg :=
 def isRest : Rcpt → Bool
   | .rest _ _ => true
   | _ => false
+
+/-- Append `b` to the mailbox of `x`. -/
+def putBox (bx : List (Rcpt × List Bundle)) (x : Rcpt) (b : Bundle) : List (Rcpt × List Bundle) :=
+  astore x ((aload x bx).getD [] ++ [b]) bx
 
 def Reg.step (r : Reg) : Op → Reg × List (Rcpt × Bundle)
   | .addPing a ep => (r.addAgent a .ping [(.ping a, [ep])], [])
@@ -323,28 +323,26 @@ def Reg.step (r : Reg) : Op → Reg × List (Rcpt × Bundle)
     ({ kinds := adelete a r.kinds, regs := r.regs.filter (fun e => e.1.agent ≠ a),
        boxes := r.boxes.filter (fun e => e.1.agent ≠ a) }, [])
   | .restReg a c ep =>
-    if r.kindOf a = some .rest then
-      ({ r with regs := r.regs.filter (fun e => e.1 ≠ .rest a c) ++ [(.rest a c, [ep])] }, [])
+    if r.kindOf a = some .rest then ({ r with regs := astore (.rest a c) [ep] r.regs }, [])
     else (r, [])
   | .restUnreg a c =>
     if r.kindOf a = some .rest then
-      ({ r with regs := r.regs.filter (fun e => e.1 ≠ .rest a c),
-                boxes := r.boxes.filter (fun e => e.1 ≠ .rest a c) }, [])
+      ({ r with regs := adelete (.rest a c) r.regs, boxes := adelete (.rest a c) r.boxes }, [])
     else (r, [])
   | .restFetch a c =>
     if r.kindOf a = some .rest then
-      (r.setBox (.rest a c) [], (r.box (.rest a c)).map (fun b => (.rest a c, b)))
+      ({ r with boxes := adelete (.rest a c) r.boxes }, (r.box (.rest a c)).map (fun b => (.rest a c, b)))
     else (r, [])
   | .wsConnect a c ep =>
-    if r.kindOf a = some .ws then
-      ({ r with regs := r.regs.filter (fun e => e.1 ≠ .ws a c) ++ [(.ws a c, ep.toList)] }, [])
+    if r.kindOf a = some .ws then ({ r with regs := astore (.ws a c) ep.toList r.regs }, [])
     else (r, [])
   | .wsClose a c =>
-    if r.kindOf a = some .ws then ({ r with regs := r.regs.filter (fun e => e.1 ≠ .ws a c) }, [])
+    if r.kindOf a = some .ws then ({ r with regs := adelete (.ws a c) r.regs }, [])
     else (r, [])
   | .deliver b =>
     let want := registeredFor r.regs b.dest
-    ((want.filter isRest).foldl (fun r x => r.setBox x (r.box x ++ [b])) r, want.map (fun x => (x, b)))
+    ({ r with boxes := (want.filter isRest).foldl (fun bx x => putBox bx x b) r.boxes },
+      want.map (fun x => (x, b)))
 
 /-- Events of one operation agree with the reference: a delivery reaches exactly the registered
 recipients (`DeliveredExactly`), a fetch returns exactly the mailbox (as a multiset), anything else
